@@ -11,6 +11,7 @@ import zlib
 import os, random, shutil, json
 import host as H
 from world import World, Violation, NS
+from model import parse_out
 from model import (gen_addr, mask_value, addr_value, groups_to_text, conf_quote, wellshaped, SVC_TYPES, BOOL_TRUE, BOOL_FALSE,
                    NICKLEN, USERLEN, HOSTLEN, REALLEN)
 
@@ -68,11 +69,16 @@ def gen_cfg(rnd, opts=None):
             order = sorted(cfg["services"], key=lambda n: n.lower())
             cfg["rules"]["!first"] = {"class": "boundary", "xreply_ok": order[min(len(order) - 1, rnd.choice([31, 31, 31, 30, 15, 16]))]}
     cfg["timeout"] = opts.get("timeout", rnd.choice([0, 0, 5, 20, 30, 90, 3600, 7200]))
+    if "timeout" not in opts and rnd.random() < 0.04:
+        cfg["timeout"] = 0
+        cfg["timeout_text"] = rnd.choice(["1w", "soon", "5x", "1h30"+"q"])
     if rnd.random() < opts.get("p_logs", 0.4):
         cfg["logs"] = gen_logs(rnd)
     if rnd.random() < 0.1:
         # the operator wrote sections (and rules) in several blocks: blocks of one name are one object
         cfg["split"] = rnd.randrange(1, 1 << 30)
+    if rnd.random() < 0.12:
+        cfg["keycase"] = rnd.randrange(1, 1 << 30)      # some setting names of the rules are written Capitalised or in CAPITALS
     return cfg
 
 
@@ -241,13 +247,20 @@ def gen_logs(rnd):
         fac = rnd.choice(["*", "*", "core", "config", "iauth", "iauth_xquery", "iauth_class"])
         sev = rnd.choice(["*", ">=debug", ">=info", ">=warning", "error,warning", "<=command", "debug"])
         ents.append(("%s.%s" % (fac, sev), "log%d" % rnd.randrange(3)))
+    if rnd.random() < 0.2:
+        # an entry the daemon cannot make sense of: it says so when it starts (and at every reload of the section)
+        ents.insert(rnd.randrange(len(ents) + 1), (rnd.choice(["core.bogus", "*.>>info", "iauth.inf", "nosuchfacility.nosuchlevel"]), "log%d" % rnd.randrange(3)))
     return ents
 
 
 def render_cfg(cfg, scratch, libpath=None):
     mods = {"iauth": "iauth", "xquery": "iauth_xquery", "class": "iauth_class"}[cfg["modules"]]
     out = ['core {', ' library_path ( "%s" )' % (libpath or "lib"), ' modules ( %s )' % mods, '}']
-    out.append('iauth {\n timeout %s\n}' % cfg["timeout"] if cfg.get("timeout") else 'iauth {\n}')
+    if cfg.get("timeout_text"):
+        # a value the daemon cannot read as an interval: it says so at start-up and goes without a timeout
+        out.append('iauth {\n timeout %s\n}' % conf_quote(cfg["timeout_text"]))
+    else:
+        out.append('iauth {\n timeout %s\n}' % cfg["timeout"] if cfg.get("timeout") else 'iauth {\n}')
     # omit_xquery / omit_class: the file does not mention the (empty) section at all
     # cfg["split"]: a section (a rule) is written as two blocks of the same name, which denote one object holding
     # the members of both; the partition is a function of the split seed and the member's name, so that a reload
@@ -270,7 +283,10 @@ def render_cfg(cfg, scratch, libpath=None):
             where = part("r/" + n)
             crit = [[], []]
             for k, v in r.items():
-                crit[part("k/%s/%s" % (n, k)) if part("x/" + n) else 0].append("  %s %s" % (k, conf_quote(v)))
+                kc = cfg.get("keycase")
+                if kc and zlib.crc32(("%d/%s/%s" % (kc, n, k)).encode()) % 3 == 0:
+                    k = k.capitalize() if zlib.crc32(("%d/%s" % (kc, k)).encode()) % 2 else k.upper()     # setting names are not case-sensitive
+                crit[part("k/%s/%s" % (n, k.lower())) if part("x/" + n) else 0].append("  %s %s" % (k, conf_quote(v)))
             blocks[where] += [" %s {" % conf_quote(n)] + crit[0] + [" }"]
             if crit[1]:
                 # the rest of the rule follows in a block of its own, in this or in the section's other block
@@ -560,9 +576,13 @@ class Gen:
             if "seg" in self.faults and r.random() < 0.25:
                 op["seg"] = sorted(r.random() for _ in range(r.choice([1, 1, 2, 4])))
                 self.fire("seg")
+            if getattr(self, "one_socket", False) and op["op"] in ("announce", "cli", "xreply") and not op.get("seg") and not op.get("torn") and r.random() < 0.25:
+                # the line travels in a burst of requests for reports, which the slow peer does not read for a while
+                op["pad"] = [r.choice([4, 8, 15, 30]), r.choice([0, 0, 4, 10])]
+                op["padkind"] = "stats"
             if r.random() < 0.15:
                 op["crlf"] = True
-            if "torn_next" in self.faults and op["op"] in ("announce", "cli", "xreply") and r.random() < 0.07:
+            if "torn_next" in self.faults and op["op"] in ("announce", "cli", "xreply") and not op.get("pad") and r.random() < 0.07:
                 # the write that carries this line ends in the middle of the server's next line (a statistics
                 # request), whose rest arrives later - possibly only after time has passed and timers have fired
                 form = r.choice(["stats", "stats", "stats2"])
@@ -842,7 +862,7 @@ class Gen:
     def noise_line(self, w):
         r = self.rnd
         live = sorted(w.live)
-        dead = [c for c in self.ids if c not in w.live] + [777, 99999]
+        dead = [c for c in self.ids + [777, 99999] if c not in w.live] or [424242]      # (777 may be somebody's id: ids congruent modulo 256)
         lc = r.choice(live) if live else 4242
         dc = r.choice(dead)
         return r.choice([
@@ -1185,6 +1205,7 @@ class Exec:
         if how == "timeout":
             cfg2 = json.loads(json.dumps(self.cfg))
             cfg2["timeout"] = c["timeout"]
+            cfg2.pop("timeout_text", None)
             text = render_cfg(cfg2, self.scratch)
         elif how == "tables":
             cfg2 = json.loads(json.dumps(self.cfg))
@@ -1367,6 +1388,13 @@ class Exec:
             else:
                 res.viol.append(Violation(crash_props, "unclean-exit", "exit status %s, teardown marker %s after end of input: %s" %
                                           (ex.rc, ex.teardown, ex.stderr[-300:])))
+        if w.banner and not hang and not ex.asan and not ex.signal and getattr(ex, "out", None):
+            # what reaches the server channel while the daemon exits (buffers flushed at exit) is on the channel too
+            for ln in ex.out.decode("latin1").split("\n"):
+                if ln and parse_out(ln)[0] is None:
+                    res.viol.append(Violation(("C09",), "grammar", "at exit the daemon wrote to the server channel what is not an IAuth "
+                                              "message (left in a buffer since when?): %r" % ln[:200]))
+                    break
         memsafety = [u for u in ex.ubsan if any(x in u for x in ("null pointer", "out of bounds", "misaligned", "object size"))]
         if memsafety and not res.viol:
             res.viol.append(Violation(crash_props, "ub-memory", "UBSan: %s" % memsafety[0]))
@@ -1417,7 +1445,8 @@ def second_look(plan, res, tag):
     are added to the result; the crash itself stays attributed to C08/C10 only."""
     if not (res.exit is not None and res.exit.asan) or res.infra:
         return
-    ex = Exec(plan["cfg"], leaks=False, tag=tag + "s", prop=plan.get("prop", "C10"), env=RECOVER_ENV)
+    ex = Exec(plan["cfg"], leaks=False, tag=tag + "s", prop=plan.get("prop", "C10"),
+              env=dict(RECOVER_ENV, VERIF_SOCKPAIR="1") if plan.get("one_socket") else RECOVER_ENV)
     if not ex.res.infra:
         for op in plan["ops"]:
             if not ex.apply(op):
@@ -1436,12 +1465,17 @@ def run_generated(rnd, opts=None, leaks=False, tag="p"):
     """Generate online and execute.  Returns (plan, result)."""
     opts = opts or {}
     cfg = opts.get("cfg") or gen_cfg(rnd, opts)
-    ex = Exec(cfg, leaks=leaks, tag=tag, prop=opts.get("prop", "C10"), snap=opts.get("snap", False))
+    # 4% of the runs: the server channel is one socket (the daemon's stdin and stdout are the same description, as
+    # under the ircd) whose peer is slow to read while some bursts are answered
+    one_socket = (not opts.get("snap")) and rnd.random() < opts.get("p_one_socket", 0.04)
+    ex = Exec(cfg, leaks=leaks, tag=tag, prop=opts.get("prop", "C10"), snap=opts.get("snap", False),
+              env={"VERIF_SOCKPAIR": "1"} if one_socket else None)
     ops = []
     if ex.res.infra:
         res = ex.finish()
         return {"profile": "proto", "cfg": cfg, "ops": ops}, res
     g = Gen(rnd, cfg, opts)
+    g.one_socket = one_socket
     while True:
         op = g.next(ex.w)
         if op is None:
@@ -1460,13 +1494,16 @@ def run_generated(rnd, opts=None, leaks=False, tag="p"):
     res.gen = {"faults": sorted(g.faults), "lenmode": g.lenmode, "clients": g.total, "conc": g.maxconc,
                "steps": g.max_steps, "p_reply": g.p_reply}
     plan = {"profile": "proto", "cfg": cfg, "ops": ops, "leaks": leaks, "prop": opts.get("prop", "C10")}
+    if one_socket:
+        plan["one_socket"] = True
+        res.extra["runs_on_one_socket_with_a_slow_peer"] = 1
     second_look(plan, res, tag)
     return plan, res
 
 
 def run_plan(plan, tag="r", leaks=None):
     ex = Exec(plan["cfg"], leaks=plan.get("leaks", False) if leaks is None else leaks, tag=tag,
-              prop=plan.get("prop", "C10"))
+              prop=plan.get("prop", "C10"), env={"VERIF_SOCKPAIR": "1"} if plan.get("one_socket") else None)
     if not ex.res.infra:
         for op in plan["ops"]:
             if not ex.apply(op):
